@@ -27,7 +27,7 @@ MUT = {
  "skip-set-checksum": ("slave_connection.go", "\tif err := s.prepareForReplication(); err != nil {\n\t\ts.close()\n\t\treturn nil, err\n\t}\n", "", "C07"),
  "pos-before-send": ("streamer.go", "\t\tnext := pos\n\t\tnext.Offset = ev.NextPosition()\n\t\ttran := newTransaction(now, next, int64(ev.Timestamp()), tranEvents)", "\t\tnext := pos\n\t\tnext.Offset = ev.NextPosition()\n\t\tpos = next\n\t\ttran := newTransaction(now, next, int64(ev.Timestamp()), tranEvents)", "C04"),
  "miscount-zero-pos": ("streamer.go", "\t\t\t\treturn pos,\n\t\t\t\t\tnewError(fmt.Errorf(\"parseEvents the length of column in tableMap", "\t\t\t\treturn Position{},\n\t\t\t\t\tnewError(fmt.Errorf(\"parseEvents the length of column in tableMap", "C04"),
- "drop-setpos": ("streamer.go", "\ts.SetBinlogPosition(pos)\n\tif err != nil {", "\tif err != nil {", "C04"),
+ "drop-setpos": ("streamer.go", "\ts.SetBinlogPosition(pos)\n\tif err != nil {", "\t_ = pos\n\tif err != nil {", "C04"),
  "setpos-only-on-success": ("streamer.go", "\ts.SetBinlogPosition(pos)\n\tif err != nil {\n\t\treturn err.msgf(\"parseEvents fail in pos: %+v\", err)\n\t}", "\tif err != nil {\n\t\treturn err.msgf(\"parseEvents fail in pos: %+v\", err)\n\t}\n\ts.SetBinlogPosition(pos)", "C04"),
  "commit-on-begin": ("streamer.go", "\t\t\tcase StatementBegin:\n\t\t\t\tbegin()", "\t\t\tcase StatementBegin:\n\t\t\t\tbegin()\n\t\t\t\tautocommit = true", "C02"),
  "forget-clear-events": ("streamer.go", "\t\tpos = next\n\t\ttranEvents = nil", "\t\tpos = next", "C02,C01"),
@@ -44,11 +44,11 @@ MUT = {
  "v2-extra-data": ("replication/binlog_event_rbr.go", "\t\tpos += int(extraDataLength)\n", "\t\tpos += 2\n\t\t_ = extraDataLength\n", "C01"),
  "null-bitmap-index": ("streamer.go", "\t\tif rs.Rows[rowIndex].NullColumns.Bit(valueIndex) {", "\t\tif rs.Rows[rowIndex].NullColumns.Bit(c) {", "C01"),
  "tx-timestamp": ("streamer.go", "tran := newTransaction(now, next, int64(ev.Timestamp()), tranEvents)", "tran := newTransaction(now, next, int64(ev.Timestamp())+int64(len(tranEvents)/7), tranEvents)", "C01"),
- "xid-after-sql-only": ("streamer.go", "\t\t\t\tif autocommit {\n\t\t\t\t\tif err = commit(ev); err != nil {\n\t\t\t\t\t\treturn pos, newError(err).msgf(\"parseEvents commit fail in WriteRows event\")", "\t\t\t\tif autocommit && len(rows.Rows) > 0 {\n\t\t\t\t\tif err = commit(ev); err != nil {\n\t\t\t\t\t\treturn pos, newError(err).msgf(\"parseEvents commit fail in WriteRows event\")", "C02"),
+ "xid-after-sql-only": ("streamer.go", "\t\t\ttranEvents = append(tranEvents, tranEvent)\n\t\t\tif autocommit {\n\t\t\t\tif err = commit(ev); err != nil {\n\t\t\t\t\treturn pos, newError(err).msgf(\"parseEvents commit fail in WriteRows event\")", "\t\t\ttranEvents = append(tranEvents, tranEvent)\n\t\t\tif autocommit && len(rows.Rows) > 1 {\n\t\t\t\tif err = commit(ev); err != nil {\n\t\t\t\t\treturn pos, newError(err).msgf(\"parseEvents commit fail in WriteRows event\")", "C02"),
 }
 
 def sh(cmd, cwd=None, env=ENV, timeout=3600):
-    p = subprocess.run(cmd, shell=True, cwd=cwd, env=env, stdout=subprocess.PIPE, stderr=subprocess.STDOUT, text=True, timeout=timeout)
+    p = subprocess.run(cmd, shell=True, cwd=cwd, env=env, stdout=subprocess.PIPE, stderr=subprocess.STDOUT, text=True, errors='replace', timeout=timeout)
     return p.returncode, p.stdout
 
 def main():
